@@ -130,8 +130,10 @@ def lex_opcode_size(s: "Scanner") -> None:
 
         return lex_operand(s)
     else:
+        # the offending character may be the end of the line: note the position before consuming it.
+        position = s.get_position()
         s.next()
-        raise ScannerException("Invalid Size Specifier", s.get_position())
+        raise ScannerException("Invalid Size Specifier", position)
 
 
 def lex_opcode(s: "Scanner") -> None:
